@@ -90,6 +90,8 @@ def _analog_cycles(spec, clock_freq=260e06):
         msg = f'groups={groups}. Analog accelerator supports only groups=1'
         raise ValueError(msg)
     out_x, out_y = spec['output_shape'][2:]
+    # static sizes (e.g. the out_features of a linear layer) come as plain ints
+    ch_out = torch.as_tensor(ch_out, dtype=torch.float32)
     ox_unroll_base = ComputeOxUnrollSTE.apply(ch_out, ch_in, k_x, k_y)
     cycles_comp = FloorSTE.apply(ch_out, 512) * _floor(ch_in, 128) * out_x * out_y / ox_unroll_base
     cycles_weights = 4 * 2 * ch_in * k_x * k_y
@@ -110,6 +112,8 @@ def _digital_cycles(spec):
     k_x, k_y = spec['kernel_size']
     groups = spec['groups']
     out_x, out_y = spec['output_shape'][2:]
+    # static sizes (e.g. the out_features of a linear layer) come as plain ints
+    ch_out = torch.as_tensor(ch_out, dtype=torch.float32)
     # N.B., `ch_out` requires STE while `out_x` does not because it does not requires grad.
     cycles = FloorSTE.apply(ch_out / groups, 16) * ch_in * _floor(out_x, 16) * out_y * k_x * k_y
     cycles_load_store = out_x * out_y * (ch_out + ch_in) / 8
@@ -122,12 +126,14 @@ def _diana_latency_conv2d_generic(spec):
     # but in the DNAS, the ternary quantizer is treated as a 2-bit one
     # also, the activations are actually on 7-bit, but we use 8-bit during the search, as
     # explained in the paper
-    if spec['w_precision'] == 2 and spec['a_precision'] == 8:
+    # the MPS layers report the activations precision as 'in_precision'
+    a_precision = spec['a_precision'] if 'a_precision' in spec else spec['in_precision']
+    if spec['w_precision'] == 2 and a_precision == 8:
         return _analog_cycles(spec)
-    elif spec['w_precision'] == 8 and spec['a_precision'] == 8:
+    elif spec['w_precision'] == 8 and a_precision == 8:
         return _digital_cycles(spec)
     else:
-        raise ValueError(f'Unsupported weights/activations precision: {spec["w_precision"]} / {spec["a_precision"]}')
+        raise ValueError(f'Unsupported weights/activations precision: {spec["w_precision"]} / {a_precision}')
 
 
 def _diana_latency_linear(spec):
@@ -139,7 +145,7 @@ def _diana_latency_linear(spec):
     new_spec['groups'] = 1
     new_spec['output_shape'] = spec['output_shape'] + (1, 1)
     new_spec['w_precision'] = spec['w_precision']
-    new_spec['a_precision'] = spec['a_precision']
+    new_spec['a_precision'] = spec['a_precision'] if 'a_precision' in spec else spec['in_precision']
     return _diana_latency_conv2d_generic(new_spec)
 
 
